@@ -53,14 +53,23 @@ func runC05(t testing.TB, c C05Case) (key, what string, classes map[string]int) 
 		cfg.CertFile = filepath.Join(dir, "cert.txtar")
 	case "nested":
 		cfg.CertFile = filepath.Join(dir, "a", "b", "cert.txtar")
-	case "supplied", "chain":
+	case "supplied", "chain", "expired":
 		// a cache that exists before the first run: a key pair made elsewhere
 		// ("supplied"), possibly with a second certificate after the leaf, as
 		// in leaf + issuer ("chain"); the leaf's key is what gets served
 		cfg.CertFile = filepath.Join(dir, "cert.txtar")
-		certPEM, keyPEM, _, err := sstls.GenerateSelfSignedCertificate("supplied", []string{"supplied.example"}, nil, 24*time.Hour)
+		life := 24 * time.Hour
+		if c.Cache == "expired" {
+			// a cache whose certificate is past its NotAfter (curl -k with a
+			// pinned key does not care, and neither does the listener)
+			life = time.Millisecond
+		}
+		certPEM, keyPEM, _, err := sstls.GenerateSelfSignedCertificate("supplied", []string{"supplied.example"}, nil, life)
 		if err != nil {
 			return "HARNESS", err.Error(), classes
+		}
+		if c.Cache == "expired" {
+			time.Sleep(20 * time.Millisecond)
 		}
 		if c.Cache == "chain" {
 			otherPEM, _, _, err := sstls.GenerateSelfSignedCertificate("issuer", nil, nil, 24*time.Hour)
@@ -316,7 +325,7 @@ func genC05() *rapid.Generator[C05Case] {
 			Listen: rapid.SampledFrom([]string{"127.0.0.1:0", "127.0.0.1", "[::1]:0", "::1", "0.0.0.0:0", "[::]:0", "localhost:0"}).Draw(t, "listen"),
 			Files:  rapid.Bool().Draw(t, "files"),
 			IPv6:   rapid.Bool().Draw(t, "ipv6"),
-			Cache:  rapid.SampledFrom([]string{"none", "fresh", "nested", "supplied", "chain"}).Draw(t, "cache"),
+			Cache:  rapid.SampledFrom([]string{"none", "fresh", "nested", "supplied", "chain", "expired"}).Draw(t, "cache"),
 		}
 		for i := rapid.IntRange(0, 3).Draw(t, "ncb"); i > 0; i-- {
 			c.CBAddrs = append(c.CBAddrs, rapid.SampledFrom([]string{"cb.example", "cb.example:8443", "10.9.8.7", "10.9.8.7:444", "[2001:db8::5]:4444", "2001:db8::6", "other.test:1"}).Draw(t, "cb"))
